@@ -239,47 +239,3 @@ fn c18_macro_kw_class_tables() {
 
 // (a bounded harness on hex.rs::parse_sas_hex_string with a 2-character content did not finish in 15 min /
 //  String+Vec+iterator chains+encoding tables: the hex decoder is outside what CBMC can do here; see DESIGN.md)
-
-// ------------------------------------------------------------------------------------------ C07 (bounded)
-use super::hex::parse_sas_hex_string;
-
-fn hex_digit_val(c: u8) -> Option<u8> {
-    match c {
-        b'0'..=b'9' => Some(c - b'0'),
-        b'a'..=b'f' => Some(c - b'a' + 10),
-        b'A'..=b'F' => Some(c - b'A' + 10),
-        _ => None,
-    }
-}
-
-/// C07, BOUNDED stand-in (content of exactly two ASCII characters, both quote kinds and both cases of the suffix): a hex
-/// string literal decodes iff its content is a pair of hex digits (or only commas), and then to the Latin-1 character
-/// of that byte. hex.rs is outside Verus' reach (iterator chain, `encoding` crate); this is not a proof for all lengths.
-#[kani::proof]
-#[kani::unwind(10)]
-fn c07_hex_pair_bounded() {
-    let a: u8 = kani::any();
-    let b: u8 = kani::any();
-    kani::assume(a < 128 && b < 128);
-    let q: u8 = if kani::any() { b'\'' } else { b'"' };
-    let x: u8 = if kani::any() { b'x' } else { b'X' };
-    kani::assume(a != q && b != q);
-    let bytes = [q, a, b, q, x];
-    let s = match std::str::from_utf8(&bytes) {
-        Ok(s) => s,
-        Err(_) => return,
-    };
-    let r = parse_sas_hex_string(s);
-    match (hex_digit_val(a), hex_digit_val(b)) {
-        (Some(h), Some(l)) => {
-            let v = r.expect("a pair of hex digits decodes");
-            let mut it = v.chars();
-            assert!(it.next() == Some(char::from(h * 16 + l)));
-            assert!(it.next().is_none());
-        }
-        _ if a == b',' && b == b',' => {
-            assert!(r.expect("commas only: empty value").is_empty());
-        }
-        _ => assert!(r.is_err()),
-    }
-}
